@@ -196,7 +196,7 @@ def main(prop_name, tier, seed, replay=None):
         for f in r["res"].get("features") or []:
             feats[f] = feats.get(f, 0) + 1
         if prop.nontrivial(r["case"], r["res"]):
-            nontriv.add(r["res"].get("ir"))
+            nontriv.add((r["res"].get("ir"), json.dumps(r["case"].get("opts"), sort_keys=True)))
     outcomes = {}
     for r in recs:
         k = r["res"].get("result") if r["res"].get("parse_ok") else "parse_error"
